@@ -17,6 +17,11 @@ CONTINUOUS = ['fast_SIR', 'fast_nonMarkov_SIR', 'fast_SIS', 'fast_nonMarkov_SIS'
 BANNED_MODULES = {'time', 'os', 'uuid', 'secrets', 'datetime', 'socket', 'threading', 'multiprocessing'}
 BANNED_CALLS = {'id', 'hash', 'random.seed', 'np.random.seed', 'numpy.random.seed', 'random.Random', 'random.SystemRandom',
                 'np.random.RandomState', 'np.random.default_rng', 'random.setstate', 'np.random.set_state', 'input'}
+BANNED_ATTRS = {'default_rng', 'RandomState', 'SystemRandom', 'Generator', 'urandom', 'getrandbits', 'token_bytes', 'perf_counter', 'time_ns', 'getpid'}
+RNG_METHODS = {'random', 'choice', 'choices', 'sample', 'expovariate', 'uniform', 'randint', 'randrange', 'shuffle', 'gauss', 'normalvariate', 'betavariate',
+               'gammavariate', 'binomial', 'geometric', 'integers', 'normal', 'exponential', 'poisson', 'permutation', 'rand', 'randn', 'random_sample',
+               'multinomial', 'standard_normal', 'triangular', 'weibullvariate', 'paretovariate', 'lognormvariate', 'vonmisesvariate', 'bytes'}
+NON_RNG_RECEIVERS = set()
 DRAWS = ('random.', 'np.random.', 'numpy.random.')
 ORDER_SENSITIVE_METHODS = {'append', 'add', 'insert', 'update', 'remove', 'pop', 'random_removal', 'choose_random', 'extend'}
 
@@ -90,10 +95,21 @@ def set_valued_names(fn):
                 return True
             if isinstance(e.func, ast.Attribute) and e.func.attr in ('union', 'intersection', 'difference', 'symmetric_difference'):
                 return True
+            # a sequence built from a set inherits the set's (hash-dependent) order; sorted(...) does not
+            if nm in ('list', 'tuple', 'iter', 'reversed', 'enumerate', 'np.array', 'numpy.array', 'np.asarray', 'deque', 'collections.deque') and e.args and is_set_expr(e.args[0]):
+                return True
+            if nm == 'zip' and any(is_set_expr(a) for a in e.args):
+                return True
+        if isinstance(e, (ast.ListComp, ast.GeneratorExp)) and any(is_set_expr(g.iter) for g in e.generators):
+            return True
+        if isinstance(e, ast.IfExp):
+            return is_set_expr(e.body) or is_set_expr(e.orelse)
+        if isinstance(e, ast.BinOp) and isinstance(e.op, (ast.BitOr, ast.BitAnd, ast.Sub, ast.BitXor)) and (is_set_expr(e.left) or is_set_expr(e.right)):
+            return True
         if isinstance(e, ast.Name):
             return e.id in out
         return False
-    for _ in range(3):
+    for _ in range(4):
         for n in ast.walk(fn):
             if isinstance(n, ast.Assign) and is_set_expr(n.value):
                 for t in n.targets:
@@ -129,15 +145,30 @@ def obligations():
                       replay_note='flow analysis: %s' % (detail or 'clause holds'), engine='E2'))
 
     # (i) + (ii) for every function of the module
-    for name, fn in sorted(fns.items()):
-        bad, line = [], fn.lineno
-        for x in ast.walk(fn):
+    def banned_in(node):
+        bad, line = [], getattr(node, 'lineno', 0)
+        for x in ast.walk(node):
             if isinstance(x, ast.Call):
                 nm = ast.unparse(x.func)
                 root = nm.split('.')[0]
-                if root in BANNED_MODULES or nm in BANNED_CALLS:
+                recv = nm.rsplit('.', 1)[0] if '.' in nm else ''
+                if root in BANNED_MODULES or nm in BANNED_CALLS or nm.split('.')[-1] in BANNED_ATTRS:
                     bad.append('line %d: `%s`' % (x.lineno, ast.unparse(x)[:60]))
                     line = x.lineno
+                elif isinstance(x.func, ast.Attribute) and x.func.attr in RNG_METHODS and recv not in ('random', 'np.random', 'numpy.random') \
+                        and not (x.func.attr in ('choice', 'sample', 'random') and recv in NON_RNG_RECEIVERS):
+                    bad.append('line %d: `%s` draws from a generator other than the two seeded module-level ones' % (x.lineno, ast.unparse(x)[:60]))
+                    line = x.lineno
+        return bad, line
+    top = ast.Module(body=[n for n in tree.body if not isinstance(n, (ast.FunctionDef, ast.ClassDef))], type_ignores=[])
+    bad, line = banned_in(top)
+    for n in tree.body:
+        if isinstance(n, ast.ClassDef):
+            b2, l2 = banned_in(ast.Module(body=[m for m in n.body if not isinstance(m, ast.FunctionDef)], type_ignores=[]))
+            bad += b2
+    ob('nondet-sources:<module level>', '<module>', not bad, '; '.join(bad), line)
+    for name, fn in sorted(fns.items()):
+        bad, line = banned_in(fn)
         ob('nondet-sources:%s' % name, name, not bad, '; '.join(bad), line)
         bad = []
         for x in ast.walk(fn):
